@@ -306,7 +306,7 @@ def spliceBeforeTypeDecl : Nat → Val → (Val → Option Val) → Option Val
       else (spliceBeforeTypeDecl fuel t f).bind fun t' => d.setAttr "type" t'
 
 def typeModifyDecl (decl modifier : Val) : P Val :=
-  let fuel := decl.size + modifier.size + 1
+  let fuel := decl.tlen + modifier.tlen + 1
   if decl.isCls .TypeDecl then
     attrOrCrash (setChainTail fuel modifier decl) "_type_modify_decl: modifier_tail.type"
   else
@@ -339,7 +339,7 @@ def copyList (v : Val) : Option Val :=
   | _ => none        -- `None[:]` : TypeError
 
 def fixDeclNameType (decl : Val) (typename : List Val) : P Val := do
-  let fuel := decl.size + 1
+  let fuel := decl.tlen + 1
   let typ ← attrOrCrash (innerTypeDecl fuel decl) "_fix_decl_name_type: typ.type"
   let declname ← attrOrCrash (typ.getAttr "declname") "declname"
   let decl ← attrOrCrash (decl.setAttr "name" declname) "decl.name"
@@ -401,7 +401,7 @@ def rebuildChain : List Val → Val → Option Val
 
 def fixAtomicOnce (decl : Val) : P (Val × Bool) := do
   let dty ← attrOrCrash (decl.getAttr "type") "decl.type"
-  match atomicPath (decl.size + 1) dty [decl] with
+  match atomicPath (decl.tlen + 1) dty [decl] with
   | none => pure (decl, false)
   | some (node :: parent :: rest) =>
     if !parent.isCls .TypeDecl then crash .assertion "_fix_atomic_specifiers_once: parent" else
@@ -433,8 +433,8 @@ def fixAtomicLoop : Nat → Val → P Val
 /-- returns the fixed declaration and its (possibly extended) `quals` list, which in Python is the
 *shared* `spec["qual"]` list object. -/
 def fixAtomicSpecifiers (decl : Val) : P Val := do
-  let decl ← fixAtomicLoop (decl.size + 1) decl
-  let fuel := decl.size + 1
+  let decl ← fixAtomicLoop (decl.tlen + 1) decl
+  let fuel := decl.tlen + 1
   match innerTypeDecl fuel decl with
   | none => pure decl                      -- AttributeError on the way down: return decl
   | some typ =>
@@ -453,7 +453,7 @@ def fixAtomicSpecifiers (decl : Val) : P Val := do
     let dn ← attrOrCrash (typ.getAttr "declname") "typ.declname"
     if dn.isNone then
       let nm ← attrOrCrash (decl.getAttr "name") "decl.name"
-      attrOrCrash (mapInnerTypeDecl (decl.size + 1) decl fun td => td.setAttr "declname" nm) "typ.declname="
+      attrOrCrash (mapInnerTypeDecl (decl.tlen + 1) decl fun td => td.setAttr "declname" nm) "typ.declname="
     else pure decl
 
 /-! ## `ast_transforms.fix_switch_cases` -/
